@@ -104,7 +104,7 @@ func kSliceable(o obj) bool {
 	_, isStr := o.(mStr)
 	return kSeq(o) || kBytes(o) || isStr
 }
-func kMapOrNil(o obj) bool   { return kMap(o) || isNilObj(o) }
+func kMapOrNil(o obj) bool { return kMap(o) || isNilObj(o) }
 func kByteSeqish(o obj) bool {
 	if kBytes(o) {
 		return true
@@ -573,11 +573,16 @@ func resolve(st Step, h *heap) *cop {
 		}
 	}
 	byteArgs := func() {
-		if st.Bad == 5 {
-			return
-		}
 		for i, a := range c.args {
+			if st.Bad == 5 && a.kind != 0 {
+				continue // a string, float, symbol or container where a byte is wanted
+			}
 			c.args[i] = carg{kind: 0, i: mod(a.i, 256)}
+		}
+		if st.Bad == 5 && len(c.args) > 0 {
+			// one element that is not a byte, at ANY position: the refused
+			// call must leave nothing of the elements before it behind
+			c.args[mod(st.J, len(c.args))] = carg{kind: 0, i: []int{256, -1, 300, 1000}[mod(st.I, 4)]}
 		}
 	}
 
@@ -971,8 +976,8 @@ func checkHistory(cs Case, ctx *vcommon.Ctx) *vcommon.Failure {
 		return vcommon.Failf(key, "%s\nhistory:\n%s", msg, script(srcs))
 	}
 
-	origin := map[int]string{}   // object id -> the operation that produced it
-	extended := map[int]int{}    // object id -> successful extend operations from it
+	origin := map[int]string{} // object id -> the operation that produced it
+	extended := map[int]int{}  // object id -> successful extend operations from it
 	cops := make([]*cop, len(cs.Steps))
 	for si, st := range cs.Steps {
 		if si >= 60 {
